@@ -56,6 +56,7 @@ def build_modules():
     out = []
 
     def module(nfuncs, name_of, pairs, with_local):
+        pairs_of = pairs if callable(pairs) else (lambda k: pairs)
         m = W.Module()
         t = m.AddFunctionType(W.FunctionType([W.ValueType.i32], [W.ValueType.i32]))
         for k in range(nfuncs):
@@ -64,7 +65,7 @@ def build_modules():
             c = W.Code()
             if with_local:
                 c.AddLocal(W.Local(W.ValueType.f32))
-            for _ in range(pairs):
+            for _ in range(pairs_of(k)):
                 c.AddInstruction(W.Instruction(W.opcodes["local.get"], (0,)))
                 c.AddInstruction(W.Instruction(W.opcodes["local.set"], (0,)))
             c.AddInstruction(W.Instruction(W.opcodes["local.get"], (0,)))
@@ -82,6 +83,9 @@ def build_modules():
         # with 31 pairs each body has 128 bytes, so 127-130 of them push the code section across the 16384-byte boundary
         for pairs in (1, 31):
             out.append((f"funcs:{nf}:{pairs}", module(nf, lambda k: f"f{k}", pairs, False), {"names": [f"f{k}" for k in range(nf)]}))
+    # bodies of different sizes in one module, in rising, falling and mixed order: every body's size field counts its own bytes
+    for nm, sizes in (("rising", [1, 5, 20, 70]), ("falling", [70, 20, 5, 1]), ("mixed", [3, 40, 2, 66, 1, 9]), ("across128", [70, 30, 64, 1])):
+        out.append((f"sizes:{nm}", module(len(sizes), lambda k: f"f{k}", lambda k, sizes=sizes: sizes[k], False), {"names": [f"f{k}" for k in range(len(sizes))]}))
     return out
 
 
